@@ -737,13 +737,16 @@ RULE = (
     "calls made with the interpreter's own recursion check armed to fire "
     "with H frames of head-room left at API entry (after P padding frames), "
     "then 2-4 ordinary follow-up calls compared with the pristine-process "
-    "reference. Cases (nesting construct x depth x entry point x option set "
-    "x input form x fresh/warm lexer) are seeded; each case is swept over "
+    "reference; the recursion limit and other interpreter-global state "
+    "must be unchanged after each faulted call. Cases (nesting construct x "
+    "depth x entry point incl. lazily consumed parsestream x option set x "
+    "input form str/StringIO/bytes/bytes+encoding/stream x fresh/warm "
+    "lexer) are seeded; each case is swept over "
     "64 head-room values: a contiguous window ('dense': every frame "
     "boundary in the window) or a jittered stride over 1..threshold+30, "
     "where the success threshold is found per case by a monotone probe. A "
-    "deep stratum nests far beyond the recursion limit at the default and "
-    "at raised limits. Non-trivial: the fault actually fired (the call "
+    "deep stratum nests 250-100000 deep at recursion limits 100-50000 "
+    "under a 1 GiB address-space cap. Non-trivial: the fault actually fired (the call "
     "ended in SQLParseError caused by RecursionError, or RecursionError "
     "escaped). Distinct: distinct (innermost sqlparse frame of the "
     "overflow, construct, entry point, option-key set, lexer state) "
